@@ -530,7 +530,7 @@ def connect_jobs():
 
 
 # ------------------------------------------------------------------ waiting on a process whose output was left unread
-LATE_APIS = ['wait', 'communicate', 'read-all', 'wait_closed', 'run-like']
+LATE_APIS = ['wait', 'communicate', 'read-all', 'wait_closed', 'run-like', 'collect-poll']
 
 
 def late_wait_case(n, k, api):
@@ -574,10 +574,28 @@ def late_wait_case(n, k, api):
                 await p.wait_closed()
                 o, e = p.collect_output()
                 res['out'], res['err'], res['status'] = None, None, p.exit_status
+            elif api == 'collect-poll':
+                # an application that looks at the output so far after every packet (collect_output), then waits
+                o, e = b'', b''
+                while not p.is_closing():
+                    co, ce = p.collect_output()
+                    o, e = o + co, e + ce
+                    st['tick'] = loop.create_future()
+                    await st['tick']
+                co, ce = p.collect_output()
+                o, e = o + co, e + ce
+                await p.wait_closed()           # what was still queued behind a full buffer arrives before the close
+                co, ce = p.collect_output()
+                res['out'], res['err'], res['status'] = o + co, e + ce, p.exit_status
             else:
                 o = await p.stdout.read(min(10, n))
                 r = await p.wait()
                 res['out'], res['err'], res['status'] = o + r.stdout, r.stderr, r.exit_status
+
+        def tick():
+            f = st.get('tick')
+            if f is not None and not f.done():
+                f.set_result(None)
         steps = 0
         wt = None
         while True:
@@ -590,8 +608,14 @@ def late_wait_case(n, k, api):
                 if wt is None and t.done():
                     wt = loop.create_task(waiter())
                     continue
+                if api == 'collect-poll' and not st.get('final'):
+                    st['final'] = True
+                    tick()
+                    continue
                 break
             P.deliver_packet(loop, opts[0])
+            loop.quiesce()
+            tick()
             if t.done():
                 steps += 1
             if steps > 5000:
